@@ -64,7 +64,7 @@ def normLit (s0 : List Char) : List Char := trimAscii (s0.map asciiLower)
 
 /-- `Imm::from_str` after the sign has been stripped. -/
 def immBody (negative : Bool) (s : List Char) : Option Word :=
-  if s == "zero".toList then some 0#32
+  if s == "zero".toList then (if negative then none else some 0#32)      -- the keyword takes no sign
   else match s with
   | '0' :: 'x' :: rest =>            -- strip_prefix("0x")
     if rest.head? == some '-' then none
